@@ -113,6 +113,12 @@ def gen(rng, ctx):
                 if v in o or v == g:
                     continue
                 sym = {"and": "and", "nand": "and", "or": "or", "nor": "or", "xor": "xor", "xnor": "xor"}[tps[g]]
+                if rng.random() < 0.35 and o[0] not in m and "." not in o[0]:
+                    # ... and one of the operands has a `$` in its name
+                    m[o[0]] = o[0] + "$"
+                    m[v] = f"{sym}_{o[0]}$_{o[1]}"
+                    kind += "+lookalike_with_dollar"
+                    continue
                 m[v] = f"{sym}_{o[0]}_{o[1]}"
                 continue
             m[v] = rng.choice([f"and_{o[0]}_{o[1]}", f"or_{o[0]}_{o[1]}", f"xor_{o[0]}_{o[1]}", f"not_{o[0]}", "g_0", "g_1", f"and_and_{o[0]}_{o[1]}_{v}", "tie0", "tie1", "_w", "W_1"])
